@@ -458,4 +458,299 @@ theorem stateAfter_plain : ∀ (es : List (Elem (Bin α β))) (s : State α β),
     | term => exact ⟨hs, h1, h2⟩
     | far => exact ⟨rfl, by simp, by simp⟩
 
+/-! ### stream grammar / watermark safety through `Zip` (C05 / C06) -/
+
+/-- neither `FlushAndRestart` nor `Terminate` -/
+def isOther {γ : Type} (e : Elem γ) : Bool := !e.isFar && !e.isTerm
+
+theorem grammarGo_other {γ : Type} (b : Bool) (e : Elem γ) (r : List (Elem γ)) (h : isOther e = true) :
+    grammarGo b (e :: r) = grammarGo false r := by
+  cases e <;> simp [isOther, Elem.isFar, Elem.isTerm] at h <;> simp [grammarGo]
+
+theorem grammarGo_mono {γ : Type} (b : Bool) : ∀ (r : List (Elem γ)), grammarGo false r = true → grammarGo b r = true := by
+  intro r h
+  cases r with
+  | nil => simp [grammarGo] at h
+  | cons e r =>
+    cases e with
+    | term =>
+      cases r with
+      | nil => simp [grammarGo] at h
+      | cons _ _ => simp [grammarGo] at h
+    | far => simpa [grammarGo] using h
+    | item a => rw [grammarGo_other b _ r rfl]; rwa [grammarGo_other false _ r rfl] at h
+    | ts a t => rw [grammarGo_other b _ r rfl]; rwa [grammarGo_other false _ r rfl] at h
+    | wm t => rw [grammarGo_other b _ r rfl]; rwa [grammarGo_other false _ r rfl] at h
+    | flushBatch => rw [grammarGo_other b _ r rfl]; rwa [grammarGo_other false _ r rfl] at h
+
+theorem grammarGo_others {γ : Type} (b : Bool) : ∀ (o r : List (Elem γ)), (∀ e ∈ o, isOther e = true) →
+    grammarGo false r = true → grammarGo b (o ++ r) = true := by
+  intro o
+  induction o generalizing b with
+  | nil => intro r _ h; exact grammarGo_mono b r h
+  | cons e o ih =>
+    intro r ho h
+    rw [List.cons_append, grammarGo_other b e _ (ho e List.mem_cons_self)]
+    exact ih false r (fun e' he' => ho e' (List.mem_cons_of_mem _ he')) h
+
+theorem isOther_of_isData {γ : Type} {e : Elem γ} (h : e.isData = true) : isOther e = true := by
+  cases e <;> simp [Elem.isData] at h <;> rfl
+
+/-- what a step on a non-end element emits contains no end marker -/
+theorem step_out_other (s : State α β) (e : Elem (Bin α β)) (h : isOther e = true) :
+    ∀ x ∈ (step s e).2, isOther x = true := by
+  unfold step
+  by_cases hs : s.panicked = true
+  · simp [hs]
+  · simp only [hs, Bool.false_eq_true, ↓reduceIte]
+    cases e with
+    | item b => cases b <;> first
+      | exact fun x hx => isOther_of_isData (drain_out_data _ _ x hx)
+      | simp
+    | ts b t => cases b <;> first
+      | exact fun x hx => isOther_of_isData (drain_out_data _ _ x hx)
+      | simp
+    | wm t => simp [isOther, Elem.isFar, Elem.isTerm]
+    | flushBatch => simp [isOther, Elem.isFar, Elem.isTerm]
+    | term => simp [isOther, Elem.isFar, Elem.isTerm] at h
+    | far => simp [isOther, Elem.isFar, Elem.isTerm] at h
+
+theorem run_grammar : ∀ (es : List (Elem (Bin α β))) (s : State α β) (b : Bool),
+    (stateAfter s es).panicked = false → grammarGo b es = true → grammarGo b (run s es) = true := by
+  intro es
+  induction es with
+  | nil => intro s b _ h; simp [grammarGo] at h
+  | cons e es ih =>
+    intro s b hp h
+    simp only [stateAfter] at hp
+    have hs : s.panicked = false := by
+      cases hs : s.panicked with
+      | false => rfl
+      | true =>
+        have := not_panicked_of_after hp
+        rw [step_panicked s e hs] at this; rw [hs] at this; cases this
+    cases e with
+    | term =>
+      cases es with
+      | nil => simpa [run, step, hs, grammarGo] using h
+      | cons _ _ => simp [grammarGo] at h
+    | far =>
+      simp only [run, step_far s hs, List.singleton_append]
+      simp only [grammarGo] at h ⊢
+      rw [step_far s hs] at hp
+      exact ih _ true hp h
+    | item x =>
+      rw [grammarGo_other b _ es rfl] at h
+      exact grammarGo_others b _ _ (step_out_other s _ rfl) (ih _ false hp h)
+    | ts x t =>
+      rw [grammarGo_other b _ es rfl] at h
+      exact grammarGo_others b _ _ (step_out_other s _ rfl) (ih _ false hp h)
+    | wm t =>
+      rw [grammarGo_other b _ es rfl] at h
+      exact grammarGo_others b _ _ (step_out_other s _ rfl) (ih _ false hp h)
+    | flushBatch =>
+      rw [grammarGo_other b _ es rfl] at h
+      exact grammarGo_others b _ _ (step_out_other s _ rfl) (ih _ false hp h)
+
+/-- the check `wmSafeGo` performs on a timestamp -/
+def above (w : Option Int) (t : Int) : Bool := match w with | some w => decide (w < t) | none => true
+
+theorem above_max (w : Option Int) (t u : Int) (h : above w t = true ∨ above w u = true) : above w (max t u) = true := by
+  cases w with
+  | none => rfl
+  | some w => simp only [above, decide_eq_true_eq] at h ⊢; omega
+
+/-- with one stash empty, a data element produces at most one pair, and the pair contains it -/
+theorem drain_left_arrival (x : Elem α) (ys : List (Elem β)) :
+    (drain [x] ys).2 = [] ∨ ∃ y ys' p, ys = y :: ys' ∧ pair x y = some p ∧ (drain [x] ys).2 = [p] := by
+  cases ys with
+  | nil => left; simp [drain_nil_right]
+  | cons y ys =>
+    rw [drain_cons]
+    cases hp : pair x y with
+    | none => left; rfl
+    | some p => right; exact ⟨y, ys, p, rfl, hp, by simp [drain_nil_left]⟩
+
+theorem drain_right_arrival (xs : List (Elem α)) (y : Elem β) :
+    (drain xs [y]).2 = [] ∨ ∃ x xs' p, xs = x :: xs' ∧ pair x y = some p ∧ (drain xs [y]).2 = [p] := by
+  cases xs with
+  | nil => left; simp [drain_nil_left]
+  | cons x xs =>
+    rw [drain_cons]
+    cases hp : pair x y with
+    | none => left; rfl
+    | some p => right; exact ⟨x, xs, p, rfl, hp, by simp [drain_nil_right]⟩
+
+theorem wmSafeGo_ts {γ : Type} (w : Option Int) (a : γ) (t : Int) (r : List (Elem γ)) :
+    wmSafeGo w (.ts a t :: r) = (above w t && wmSafeGo w r) := by
+  cases w <;> simp [wmSafeGo, above]
+
+theorem wmSafeGo_wm {γ : Type} (w : Option Int) (t : Int) (r : List (Elem γ)) :
+    wmSafeGo w (.wm t :: r) = (above w t && wmSafeGo (some t) r) := by
+  cases w <;> simp [wmSafeGo, above]
+
+/-- a pair made with an arriving plain item is plain; made with an arriving timestamped element
+    it carries a timestamp ≥ the arriving one -/
+theorem pair_safe_left {x : Elem α} {y : Elem β} {p : Elem (α × β)} (h : pair x y = some p)
+    (w : Option Int) (hx : ∀ a t, x = .ts a t → above w t = true) (r : List (Elem (α × β))) :
+    wmSafeGo w (p :: r) = wmSafeGo w r := by
+  cases x <;> cases y <;> simp [pair] at h <;> subst h
+  · simp [wmSafeGo]
+  · rename_i a t b u
+    rw [wmSafeGo_ts, above_max w t u (Or.inl (hx a t rfl))]; simp
+
+theorem pair_safe_right {x : Elem α} {y : Elem β} {p : Elem (α × β)} (h : pair x y = some p)
+    (w : Option Int) (hy : ∀ b u, y = .ts b u → above w u = true) (r : List (Elem (α × β))) :
+    wmSafeGo w (p :: r) = wmSafeGo w r := by
+  cases x <;> cases y <;> simp [pair] at h <;> subst h
+  · simp [wmSafeGo]
+  · rename_i a t b u
+    rw [wmSafeGo_ts, above_max w t u (Or.inr (hy b u rfl))]; simp
+
+theorem run_wmsafe : ∀ (es : List (Elem (Bin α β))) (s : State α β) (w : Option Int), Inv s →
+    (stateAfter s es).panicked = false → wmSafeGo w es = true → wmSafeGo w (run s es) = true := by
+  intro es
+  induction es with
+  | nil => intro s w _ _ _; rfl
+  | cons e es ih =>
+    intro s w hi hp h
+    simp only [stateAfter] at hp
+    have h1 := not_panicked_of_after hp
+    have hi' := step_inv s e hi h1
+    have hs : s.panicked = false := by
+      cases hs : s.panicked with
+      | false => rfl
+      | true => rw [step_panicked s e hs] at h1; rw [hs] at h1; cases h1
+    have ih' := ih (step s e).1
+    simp only [run]
+    -- the arriving element and what it makes the step emit
+    cases e with
+    | item b =>
+      have hrest : wmSafeGo w es = true := by simpa [wmSafeGo] using h
+      have key : ∀ o, (step s (.item b)).2 = o → (o = [] ∨ ∃ p, o = [p] ∧ ∀ r, wmSafeGo w (p :: r) = wmSafeGo w r) →
+          wmSafeGo w ((step s (.item b)).2 ++ run (step s (.item b)).1 es) = true := by
+        intro o ho hcase
+        rw [ho]
+        rcases hcase with rfl | ⟨p, rfl, hpr⟩
+        · simpa using ih' w hi' hp hrest
+        · simp only [List.singleton_append, hpr]; exact ih' w hi' hp hrest
+      cases b with
+      | left a =>
+        apply key _ rfl
+        simp only [step, hs, Bool.false_eq_true, ↓reduceIte]
+        rcases hi with h1' | h2'
+        · rw [h1', List.nil_append]
+          rcases drain_left_arrival (.item a) s.stash2 with h0 | ⟨y, ys', p, _, hpair, hout⟩
+          · left; exact h0
+          · right; exact ⟨p, hout, pair_safe_left hpair w (by intro _ _ hh; cases hh)⟩
+        · left; rw [h2', drain_nil_right]
+      | right a =>
+        apply key _ rfl
+        simp only [step, hs, Bool.false_eq_true, ↓reduceIte]
+        rcases hi with h1' | h2'
+        · left; rw [h1', drain_nil_left]
+        · rw [h2', List.nil_append]
+          rcases drain_right_arrival s.stash1 (.item a) with h0 | ⟨x, xs', p, _, hpair, hout⟩
+          · left; exact h0
+          · right; exact ⟨p, hout, pair_safe_right hpair w (by intro _ _ hh; cases hh)⟩
+      | leftEnd => apply key _ rfl; left; simp [step, hs]
+      | rightEnd => apply key _ rfl; left; simp [step, hs]
+    | ts b t =>
+      rw [wmSafeGo_ts] at h
+      simp only [Bool.and_eq_true] at h
+      have hrest := h.2
+      have key : ∀ o, (step s (.ts b t)).2 = o → (o = [] ∨ ∃ p, o = [p] ∧ ∀ r, wmSafeGo w (p :: r) = wmSafeGo w r) →
+          wmSafeGo w ((step s (.ts b t)).2 ++ run (step s (.ts b t)).1 es) = true := by
+        intro o ho hcase
+        rw [ho]
+        rcases hcase with rfl | ⟨p, rfl, hpr⟩
+        · simpa using ih' w hi' hp hrest
+        · simp only [List.singleton_append, hpr]; exact ih' w hi' hp hrest
+      cases b with
+      | left a =>
+        apply key _ rfl
+        simp only [step, hs, Bool.false_eq_true, ↓reduceIte]
+        rcases hi with h1' | h2'
+        · rw [h1', List.nil_append]
+          rcases drain_left_arrival (.ts a t) s.stash2 with h0 | ⟨y, ys', p, _, hpair, hout⟩
+          · left; exact h0
+          · right; exact ⟨p, hout, pair_safe_left hpair w (by intro _ _ hh; cases hh; exact h.1)⟩
+        · left; rw [h2', drain_nil_right]
+      | right a =>
+        apply key _ rfl
+        simp only [step, hs, Bool.false_eq_true, ↓reduceIte]
+        rcases hi with h1' | h2'
+        · left; rw [h1', drain_nil_left]
+        · rw [h2', List.nil_append]
+          rcases drain_right_arrival s.stash1 (.ts a t) with h0 | ⟨x, xs', p, _, hpair, hout⟩
+          · left; exact h0
+          · right; exact ⟨p, hout, pair_safe_right hpair w (by intro _ _ hh; cases hh; exact h.1)⟩
+      | leftEnd => apply key _ rfl; left; simp [step, hs]
+      | rightEnd => apply key _ rfl; left; simp [step, hs]
+    | wm t =>
+      rw [wmSafeGo_wm] at h
+      simp only [Bool.and_eq_true] at h
+      have hst : step s (.wm t : Elem (Bin α β)) = (s, [.wm t]) := by simp [step, hs]
+      rw [hst] at hp hi' ⊢
+      simp only [List.singleton_append]
+      rw [wmSafeGo_wm, h.1, Bool.true_and]
+      exact ih s (some t) hi hp h.2
+    | flushBatch =>
+      have hst : step s (.flushBatch : Elem (Bin α β)) = (s, [.flushBatch]) := by simp [step, hs]
+      rw [hst] at hp ⊢
+      have hrest : wmSafeGo w es = true := by simpa [wmSafeGo] using h
+      simpa [wmSafeGo] using ih s w hi hp hrest
+    | term =>
+      have hst : step s (.term : Elem (Bin α β)) = (s, [.term]) := by simp [step, hs]
+      rw [hst] at hp ⊢
+      have hrest : wmSafeGo w es = true := by simpa [wmSafeGo] using h
+      simpa [wmSafeGo] using ih s w hi hp hrest
+    | far =>
+      rw [step_far s hs] at hp ⊢
+      have hrest : wmSafeGo none es = true := by simpa [wmSafeGo] using h
+      simpa [wmSafeGo] using ih State.init none inv_init hp hrest
+
+/-! ### the binary start in front of `Zip`: data elements come out in arrival order -/
+
+/-- one arrival that is neither `FlushAndRestart` nor `Terminate`, at a binary start that has not
+    terminated: a data element comes out wrapped, anything else contributes no data and no
+    `FlushAndRestart` -/
+theorem front_step_other {γ : Type} (f : Front) (l : Bool) (r : Nat) (e : Elem γ) (hm : f.start.missingTerm ≠ 0)
+    (hf : e.isFar = false) (ht : e.isTerm = false) :
+    (if l then f.stepElem (β := γ) true r Bin.left e else f.stepElem (α := γ) false r Bin.right e).1.start.missingTerm ≠ 0 ∧
+    farFree (if l then f.stepElem (β := γ) true r Bin.left e else f.stepElem (α := γ) false r Bin.right e).2 = true ∧
+    lefts (if l then f.stepElem (β := γ) true r Bin.left e else f.stepElem (α := γ) false r Bin.right e).2
+      = (if l && e.isData then [e] else []) ∧
+    rights (if l then f.stepElem (β := γ) true r Bin.left e else f.stepElem (α := γ) false r Bin.right e).2
+      = (if !l && e.isData then [e] else []) := by
+  cases l <;> cases e <;>
+    simp [Front.stepElem, feed, Noir.Start.step, hm, Elem.isFar, Elem.isTerm, Elem.map, lefts, rights, farFree, Elem.isData] at hf ht ⊢
+  all_goals (generalize (Noir.Start.Frontier.update _ _ _).snd = o; cases o <;> simp [lefts, rights])
+
+theorem sideData_cons {γ : Type} (left l : Bool) (r : Nat) (e : Elem γ) (arr : List (Arrival γ)) :
+    sideData left ((l, r, e) :: arr) = (if (l == left) && e.isData then [e] else []) ++ sideData left arr := by
+  cases hl : (l == left) <;> cases hd : e.isData <;> simp [sideData, List.filter_cons, hl, hd]
+
+theorem farFree_append {γ : Type} (a b : List (Elem γ)) : farFree (a ++ b) = (farFree a && farFree b) := by
+  simp [farFree]
+
+/-- the stream the binary start hands to `Zip` for an arrival sequence without `FlushAndRestart` /
+    `Terminate` (one iteration in progress): each side's data elements in arrival order -/
+theorem front_run_sides {γ : Type} : ∀ (arr : List (Arrival γ)) (f : Front), f.start.missingTerm ≠ 0 →
+    (∀ p ∈ arr, p.2.2.isFar = false ∧ p.2.2.isTerm = false) →
+    farFree (Front.run f arr) = true ∧ lefts (Front.run f arr) = sideData true arr ∧
+      rights (Front.run f arr) = sideData false arr := by
+  intro arr
+  induction arr with
+  | nil => intro f _ _; exact ⟨rfl, rfl, rfl⟩
+  | cons p arr ih =>
+    intro f hm h
+    obtain ⟨l, r, e⟩ := p
+    have hp := h (l, r, e) List.mem_cons_self
+    have hs := front_step_other f l r e hm hp.1 hp.2
+    have ih' := ih _ hs.1 (fun q hq => h q (List.mem_cons_of_mem _ hq))
+    simp only [Front.run, farFree_append, lefts_append, rights_append, sideData_cons, hs.2.1, hs.2.2.1, hs.2.2.2,
+      ih'.1, ih'.2.1, ih'.2.2, Bool.and_self, true_and]
+    cases l <;> simp
+
 end Noir.Zip
